@@ -7,7 +7,8 @@
 
      kind       "container" "list" "leaf" "leaflist" "choice" "case"
      presence   container has a presence statement
-     typ        "string" "int8" "empty" for leaf / leaf-list, "-" otherwise
+     typ        "string" "int8" "empty" for leaf / leaf-list, or the same reached through a
+                typedef: "tstring" "tint8" "tempty"; "-" otherwise
      key        name of the (single) key leaf of a list
      mandatory  leaf / choice
      def        default value of a leaf, default case of a choice, "" = none
@@ -54,10 +55,16 @@ RECURSIVE AllNames(_)
 AllNames(kids) == IF kids = << >> THEN {} ELSE {kids[1].name} \cup AllNames(kids[1].kids) \cup AllNames(Tail(kids))
 
 \* lexical value spaces of the three types used here (they are the business of C16;
-\* only tokens whose membership is beyond doubt are ever used as values)
+\* only tokens whose membership is beyond doubt are ever used as values).  A type reached
+\* through a typedef has the value space of its base.  Type empty has exactly one lexical
+\* value, the empty string (RFC 6020 9.11: "no value"): as a path token it may follow the
+\* leaf name, any other token may not.
+BaseType(t) == CASE t = "tstring" -> "string" [] t = "tint8" -> "int8" [] t = "tempty" -> "empty" [] OTHER -> t
+IsEmptyType(t) == BaseType(t) = "empty"
 IntToks == {"5", "7", "-3"}
 TypeAccepts(t, v) ==
-  CASE t = "string" -> TRUE
-    [] t = "int8"   -> v \in IntToks
-    [] OTHER        -> FALSE          \* "empty" admits no value
+  CASE BaseType(t) = "string" -> TRUE
+    [] BaseType(t) = "int8"   -> v \in IntToks
+    [] BaseType(t) = "empty"  -> v = ""
+    [] OTHER                  -> FALSE
 =============================================================================
